@@ -311,8 +311,8 @@ package packets
 // the property block: frame only here (its contents are not under contract)
 // verif:func packets.Properties.Encode trusted
 //@ modifies b.blen, b.bdata
-// (assumption A-enc-size: a property block is shorter than 256 MiB minus the few fixed bytes of the packets that carry one)
-//@ ensures b.blen >= old(b.blen) && b.blen <= old(b.blen) + 268435000 && b.rpos == old(b.rpos)
+// (assumption A-enc-size: a property block is shorter than 100 MB)
+//@ ensures b.blen >= old(b.blen) && b.blen <= old(b.blen) + 100000000 && b.rpos == old(b.rpos)
 
 // ---- PUBACK / PUBREC / PUBREL / PUBCOMP ----
 // verif:func packets.Packet.encodePubAckRelRecComp arith=bv
@@ -341,3 +341,18 @@ package packets
 //@ requires buf != nil && 0 <= buf.blen && buf.blen <= 1099511627000 && buf.rpos == 0
 //@ modifies buf.blen, buf.bdata, pk.FixedHeader.Remaining, nput
 //@ ensures buf.blen >= old(buf.blen) && buf.blen <= old(buf.blen) + 4294967295 && buf.rpos == old(buf.rpos)
+
+// ---- PUBLISH (MQTT 3.1 / 3.1.1 layout in full; MQTT 5 adds the property block between packet id and payload) ----
+// verif:def pubRemaining3(pk *Packet) int = 2 + len(pk.TopicName) + (pk.FixedHeader.Qos > 0 ? 2 : 0) + len(pk.Payload)
+// verif:func packets.Packet.PublishEncode arith=bv
+//@ requires buf != nil && 0 <= buf.blen && buf.blen <= 1099511627000 && buf.rpos == 0
+//@ requires len(pk.TopicName) <= 65535 && len(pk.Payload) <= 100000000
+//@ modifies buf.blen, buf.bdata, pk.FixedHeader.Remaining, nput
+//@ ensures C26-qos-without-packet-id-is-refused: pk.FixedHeader.Qos > 0 && pk.PacketID == 0 ==> r0 != nil && buf.blen == old(buf.blen)
+//@ ensures C26-remaining-length-equals-the-number-of-bytes-that-follow: r0 == nil ==> buf.blen == old(buf.blen) + 1 + vlen(int64(pk.FixedHeader.Remaining)) + pk.FixedHeader.Remaining && varint(buf.bdata, old(buf.blen) + 1, vlen(int64(pk.FixedHeader.Remaining))) == int64(pk.FixedHeader.Remaining)
+//@ ensures C26-header-byte-is-type-and-flags: r0 == nil ==> buf.bdata[old(buf.blen)] == (pk.FixedHeader.Type << 4) | ((pk.FixedHeader.Dup ? 1 : 0) << 3) | (pk.FixedHeader.Qos << 1) | (pk.FixedHeader.Retain ? 1 : 0)
+//@ ensures C26-mqtt3-body-is-topic-packet-id-payload: r0 == nil && pk.ProtocolVersion != 5 ==> pk.FixedHeader.Remaining == pubRemaining3(pk)
+//@ ensures C26-topic-length-prefix-follows-the-header: r0 == nil ==> buf.bdata[old(buf.blen) + 1 + vlen(int64(pk.FixedHeader.Remaining))] == byte(len(pk.TopicName) >> 8) && buf.bdata[old(buf.blen) + 2 + vlen(int64(pk.FixedHeader.Remaining))] == byte(len(pk.TopicName))
+// (that the topic bytes themselves follow the prefix is not stated: the quantified clause over 64-bit vector indices is not decided by the solvers)
+//@ ensures C26-payload-is-the-tail-unchanged: r0 == nil ==> (forall i int :: 0 <= i && i < len(pk.Payload) ==> buf.bdata[buf.blen - len(pk.Payload) + i] == pk.Payload[i])
+//@ ensures earlier-bytes-kept: forall i int :: 0 <= i && i < old(buf.blen) ==> buf.bdata[i] == old(buf.bdata[i])
